@@ -267,6 +267,15 @@ def linear_path(fi: FuncInfo, consts: Dict[str, int]) -> List[ast.stmt]:
             if isinstance(st, ast.If):
                 v = eval_test(st.test, consts)
                 if v is None:
+                    # a branch that neither returns nor rebinds a local cannot change the constructed permutation
+                    # (e.g. it only copies a cache attribute): it is passed through and skipped by the extractor
+                    nodes = [n for b in (st.body, st.orelse) for s2 in b for n in ast.walk(s2)]
+                    comp_bound = {id(t) for n in nodes if isinstance(n, ast.comprehension) for t in ast.walk(n.target)}
+                    harmless = not any(isinstance(n, (ast.Return, ast.Yield, ast.YieldFrom, ast.Raise, ast.Break, ast.Continue)) for n in nodes) \
+                        and not any(isinstance(n, ast.Name) and isinstance(n.ctx, ast.Store) and id(n) not in comp_bound for n in nodes) \
+                        and not any(isinstance(n, ast.Subscript) and isinstance(n.ctx, ast.Store) for n in nodes)
+                    if harmless:
+                        continue
                     raise AnalysisError(f"{fi.where}: branch `{unparse(st.test)}` cannot be resolved for {consts}")
                 if walk(st.body if v else st.orelse):
                     return True
@@ -343,6 +352,7 @@ class PermOps:
         path = linear_path(fi, consts)
         env: Dict[str, Poly] = {}
         arrays: Dict[str, Optional[Map2]] = {}
+        perm_locals: Dict[str, Map2] = {}
         for st in path:
             if isinstance(st, ast.Assign) and len(st.targets) == 1 and isinstance(st.targets[0], ast.Name):
                 name = st.targets[0].id
@@ -355,7 +365,11 @@ class PermOps:
                 try:
                     env[name] = poly_of(st.value, env, (self_n,))
                 except NotAffine as exc:
-                    raise AnalysisError(f"{fi.where}: `{unparse(st)}` is not an affine integer expression ({exc})")
+                    # a local holding the constructed permutation:  result = Perm(...)
+                    try:
+                        perm_locals[name] = self._ret(fi, st.value, env, arrays, self_n, consts, depth)
+                    except AnalysisError:
+                        raise AnalysisError(f"{fi.where}: `{unparse(st)[:70]}` is neither an affine integer expression nor a permutation built from self ({exc})")
                 continue
             if isinstance(st, ast.For):
                 arr, mp = self._loop(fi, st, env, self_n)
@@ -364,9 +378,13 @@ class PermOps:
                 arrays[arr] = mp
                 continue
             if isinstance(st, ast.Return):
+                if isinstance(st.value, ast.Name) and st.value.id in perm_locals:
+                    return perm_locals[st.value.id]
                 return self._ret(fi, st.value, env, arrays, self_n, consts, depth)
             if isinstance(st, ast.Expr) and isinstance(st.value, ast.Constant):
                 continue
+            if isinstance(st, ast.Assign) and all(isinstance(t, ast.Attribute) for t in st.targets):
+                continue  # attribute store (e.g. copying a cache onto the result): no effect on the point set
             raise AnalysisError(f"{fi.where}: statement `{unparse(st)[:60]}` is outside the recognised permutation constructions")
         raise AnalysisError(f"{fi.where}: no return reached for {consts}")
 
